@@ -166,6 +166,20 @@ def _impl(tier, seed, search):
         qe = np.r_[s, v]
         ok, r = L.noraise('log-exp', lambda: Quaternion(qe).exp().log().vec, dict(q=qe), 'log(exp(q))')
         if ok: L.close('log-exp', r, qe, 1e-6, max(1.0, max(np.abs(qe))), dict(q=qe))
+        # exp and log at the edges: a vector part tiny beside a negative scalar part (log angle next to pi), scalar parts of 1e-6 .. 1e-5 and
+        # pure quaternions with |v| next to pi (exp lands next to -1): exp(log q) = q and log(exp q) = q to 1e-6 relative
+        if i % 6 == 0:
+            vt_ = inputs.unit_axis(g) * 10.0 ** g.uniform(-7, -5.5)
+            for nm_, qx_ in (('negative scalar, tiny vector', np.r_[-1.0, vt_]), ('negative scalar (large), small vector', np.r_[-3e5, 0.5, -0.25, 1.0]), ('[-1,1e-6,0,0]', np.array([-1.0, 1e-6, 0.0, 0.0]))):
+                ok, r = L.noraise(f'exp-log({nm_})', lambda: Quaternion(qx_).log().exp().vec, dict(q=qx_), 'exp(log(q))')
+                if ok: L.close('exp-log(edge)', np.asarray(r, float), qx_, 1e-6, float(np.max(np.abs(qx_))), dict(q=qx_, kind=nm_), what='exp(log(q)) differs from q for a quaternion with negative scalar part and a comparatively tiny vector part', sig='exp-log:edge')
+            for nm_, qy_ in (('small scalar part', np.r_[float(g.choice([-1, 1])) * 10.0 ** g.uniform(-6, -5), inputs.unit_axis(g) * float(g.uniform(0.3, 2.5))]), ('|v| next to pi', np.r_[0.2, inputs.unit_axis(g) * (math.pi - 10.0 ** g.uniform(-7, -5.5))]),
+                             ('scalar 3e-6', np.r_[3e-6, 0.4, -0.3, 0.2])):
+                ok, r = L.noraise(f'log-exp({nm_})', lambda: (Quaternion(qy_).exp().log().vec, type(Quaternion(qy_).exp()).__name__, np.asarray(Quaternion(qy_).exp().vec, float)), dict(q=qy_), 'log(exp(q))')
+                if ok:
+                    L.close('log-exp(edge)', np.asarray(r[0], float), qy_, 1e-6, max(1.0, float(np.max(np.abs(qy_)))), dict(q=qy_, kind=nm_), what='log(exp(q)) differs from q', sig='log-exp:edge')
+                    nv_ = float(np.linalg.norm(qy_[1:])); wantexp_ = math.exp(qy_[0]) * np.r_[math.cos(nv_), qy_[1:] / nv_ * math.sin(nv_)]
+                    L.close('exp(edge)', r[2], wantexp_, 1e-6, 1e-3 + float(np.max(np.abs(wantexp_))) * 1e-3, dict(q=qy_, kind=nm_), what='exp(q) is not e^s (cos|v|, v/|v| sin|v|) to 1e-9', sig='log-exp:edge')
         # dual quaternions
         if i % 4 == 0:
             A = DualQuaternion(Quaternion(a / sa), Quaternion(c / sc)); B = DualQuaternion(Quaternion(d / sd), Quaternion(a / sa))
@@ -174,6 +188,10 @@ def _impl(tier, seed, search):
             if ok: L.close('dq-assoc', r[0], r[1], 1e-9, 8.0, inp)
             ok, r = L.noraise('dq-matrix', lambda: (A.matrix() @ B.vec, (A * B).vec), inp, 'DualQuaternion.matrix')
             if ok: L.close('dq-matrix', r[0], r[1], 1e-9, 8.0, inp)
+            # the matrix form when the real part is stored with integer dtype (built from Python ints) and the dual part is not integral
+            Ai_ = DualQuaternion([1, 2, 3, 4, 0.5, 0.25, 1.5, -2]) if i % 8 == 0 else DualQuaternion(Quaternion([1, 2, 3, 4]), Quaternion(c / sc))
+            ok, r = L.noraise('dq-matrix(int real part)', lambda: (Ai_.matrix() @ B.vec, (Ai_ * B).vec), inp, 'DualQuaternion.matrix with an integer-stored real part')
+            if ok: L.close('dq-matrix(int real part)', r[0], r[1], 1e-9, 30.0, inp, what='A.matrix() @ B.vec differs from (A*B).vec when the real part of A is stored with integer dtype', sig='dq-matrix:int')
             # sums and differences are component-wise on the 8-vector; the product distributes over them on either side
             ok, r = L.noraise('dq-add', lambda: ((A + B).vec, (B + A).vec, (A - B).vec, (A * (B + C)).vec, (A * B).vec + (A * C).vec, ((B + C) * A).vec, (B * A).vec + (C * A).vec, ((A - B) + B).vec), inp, 'DualQuaternion sum / difference')
             if ok:
